@@ -265,6 +265,17 @@ def answer (cmd : String) (args : List Nat) : String :=
           (s, acc.2 ++ s)) (init, init)).2
       else "bad-request"
     | none => "bad-request"
+  | "ctor", ws =>
+    -- every constructor stores the words as given; `Default` is all blank
+    let zeros := List.replicate ws.length 0
+    match ws.length with
+    | 2 => joinNats (ws ++ ws ++ ws ++ zeros)
+    | 3 => joinNats (ws ++ ws ++ ws ++ zeros)
+    | 4 => joinNats (ws ++ zeros)
+    | 5 => joinNats (ws ++ ws ++ zeros)
+    | 6 => joinNats (ws ++ six123 (ws.getD 0 0) [ws.getD 1 0, ws.getD 2 0] [ws.getD 3 0, ws.getD 4 0, ws.getD 5 0] ++ zeros)
+    | 7 => joinNats (ws ++ sevenNew (ws.take 2) (ws.drop 2) ++ zeros)
+    | _ => "bad-request"
   | "six123", [one, t1, t2, h1, h2, h3] => joinNats (six123 one [t1, t2] [h1, h2, h3])
   | "sevennew", [t1, t2, f1, f2, f3, f4, f5] => joinNats (sevenNew [t1, t2] [f1, f2, f3, f4, f5])
   | "pick", n :: rest =>
